@@ -24,8 +24,12 @@ class EntryMonitor:
 
     def install(self, arm):
         r = arm.registers
+        self.complete = True
         for name, kind in METHODS.items():
-            real = getattr(r, name)
+            real = getattr(r, name, None)
+            if real is None:
+                self.complete = False       # entry routine not found under this name: entries of this kind go unchecked
+                continue
             setattr(r, name, self._wrap(arm, real, kind))
 
     def _wrap(self, arm, real, kind):
